@@ -21,7 +21,7 @@ var plainNames = []string{"pet", "owner", "tag", "item", "order", "user", "thing
 
 // alphabet of the properties: spaces, unicode, '/', '~', '?', '#', brackets and braces (never '%', '.', '"', '\\')
 var exoticNames = []string{"a b", "é", "x/y", "t~k", "q?", "h#h", "b[0]", "c{d}", "ünï cödé", "sp ace/sl~ash",
-	"x y/z~w", "日本", "w{id}", "m[n]/o", "~tilde", "/lead", "trail/", "q?r#s", " lead space", "?", "{}", "[]", "_", "-", "? ?"}
+	"x y/z~w", "日本", "w{id}", "m[n]/o", "~tilde", "/lead", "trail/", "q?r#s", " lead space", "?", "{}", "[]", "_", "-", "? ?", "x#1", "x#2"}
 
 func init() {
 	// SIM_EXOTIC="a b,é" replaces the pool of exotic names (triage aid: which name classes still fail)
@@ -156,6 +156,7 @@ func genBundle(r *R, opts FlatOpts, plus bool, thorough bool, force map[string]b
 	flag("altSpelling", 25)
 	flag("untyped", 25)
 	flag("unusedShared", 20)
+	flag("oddStatusCodes", 20)
 	flag("punctNames", 8)
 	flag("sameDirTwins", 10)
 	flag("rootNoDefs", 10)
@@ -961,6 +962,10 @@ func (g *bundleGen) operation(d *gDoc, pathHasID bool, pathLevelBody bool) obj {
 	}
 	resps := obj{}
 	codes := []string{"200", "201", "404", "default"}
+	if g.on("oddStatusCodes") {
+		// legal status codes for which net/http knows no reason phrase
+		codes = append(codes, "419", "306")
+	}
 	nr := r.Range(1, 3)
 	for i := 0; i < nr; i++ {
 		code := codes[r.Intn(len(codes))]
@@ -1366,6 +1371,34 @@ func (g *bundleGen) plantAnonPointers() {
 	usePreferred := len(preferred) > 0 && r.P(60)
 	if usePreferred {
 		k = 1
+	}
+	if !usePreferred && r.P(20) {
+		// two pointers into sibling properties whose names are prefix-related ('id' / 'idx'), holders in both orders
+		kindOf := func() obj {
+			if r.P(50) {
+				return g.primitive()
+			}
+			return obj{"type": "object", "properties": obj{"v": g.primitive()}}
+		}
+		g.addRootDef("pfxHolder", obj{"type": "object", "properties": obj{"id": kindOf(), "idx": kindOf(), "other": g.primitive()}})
+		shortRef := obj{"$ref": "#/definitions/pfxHolder/properties/id"}
+		longRef := obj{"$ref": "#/definitions/pfxHolder/properties/idx"}
+		first, second := shortRef, longRef
+		if r.P(50) {
+			first, second = longRef, shortRef
+		}
+		switch r.Intn(3) {
+		case 0:
+			g.addRootDef("pfxUserA", obj{"type": "object", "properties": obj{"p": first}})
+			g.addRootDef("pfxUserB", obj{"type": "object", "properties": obj{"p": second}})
+		case 1:
+			g.addRootOp("/pfxa", first)
+			g.addRootOp("/pfxb", second)
+		case 2:
+			g.addRootOp("/pfxa", first)
+			g.addRootDef("pfxUserB", obj{"type": "array", "items": second})
+		}
+		return
 	}
 	var sameDef []target
 	if !usePreferred && r.P(30) {
